@@ -120,7 +120,12 @@ def good_value(o: J, layer_by: Dict[str, J], r: random.Random, depth: int = 0) -
                 n = min(n, o["max"])
         return [good_value(layer_by[o["struct"]], layer_by, r, depth + 1) for _ in range(n)]
     if t == "MUX":
-        c = r.choice(o["cases"])
+        # successive assignments of one message walk through the cases (every case of a
+        # multiplexer is reached after len(cases) assignments), with a random start
+        if _ROT[0] >= 0:
+            c = o["cases"][_ROT[0] % len(o["cases"])]
+        else:
+            c = r.choice(o["cases"])
         if c.get("struct"):
             return (c["name"], good_value(layer_by[c["struct"]], layer_by, r, depth + 1))
         return (c["name"], {})
@@ -165,11 +170,21 @@ def good_params(params: List[J], layer_by: Dict[str, J], r: random.Random, depth
     return vals
 
 
+_ROT = [-1]
+
+
 def assignments(msg: J, layer: J, r: random.Random, n: int = 6) -> List[Dict[str, Any]]:
     by = {o["name"]: o for o in layer["dobjs"]}
     out = []
+    ncases = [len(by[p["dop"]]["cases"]) for p in msg["params"]
+              if p.get("dop") in by and by[p["dop"]]["t"] == "MUX"]
+    n = max([n] + ncases)
     for i in range(n):
-        v = good_params(msg["params"], by, r)
+        _ROT[0] = i
+        try:
+            v = good_params(msg["params"], by, r)
+        finally:
+            _ROT[0] = -1
         # explicit length keys for some assignments
         for p in msg["params"]:
             if p["p"] == "LENGTH-KEY" and i % 2 == 1:
@@ -210,6 +225,11 @@ def probe_layer() -> J:
     # 1 structure with BYTE-SIZE at non-zero offset, followed by a constant
     dobjs.append(_struct("st_bs", [p_value("a", "u8"), p_value("b", "u8")], byte_size=4))
     rq("p_bytesize", [sid(), p_value("s", "st_bs"), u8const("tail", 0x03)], "struct-bytesize")
+    # BYTE-SIZE with parameters listed out of positional order (padding must not touch them)
+    dobjs.append(_struct("st_bs_ooo", [p_value("chk", "u8", byte=3), p_value("kind", "u8", byte=0),
+                                       p_value("len", "u8", byte=1)], byte_size=6))
+    rq("p_bytesize_ooo", [sid(), p_value("s", "st_bs_ooo"), u8const("tail", 0x03)],
+       "struct-bytesize-out-of-order")
     dobjs.append(_struct("st_plain", [p_value("a", "u16"), p_value("b", "s8")]))
     rq("p_struct2", [sid(), p_value("s1", "st_plain"), p_value("s2", "st_plain", byte=6)],
        "struct-twice-gap")
@@ -249,6 +269,19 @@ def probe_layer() -> J:
                   "cases": [{"name": "k1", "lo": 1, "hi": 1, "struct": "st_c2"},
                             {"name": "k2", "lo": 2, "hi": 5, "struct": "st_c1"}], "default": None})
     rq("p_mux_bitkey", [sid(), p_value("pre", "u8"), p_value("m", "mux_kb")], "mux-bitkey")
+    # multiplexer at a non-zero offset with structure-less cases, followed by a parameter at an
+    # explicit position (the origin of the enclosing message must be restored after the mux)
+    dobjs.append({"t": "MUX", "name": "mux_ns", "byte_pos": 1,
+                  "key": {"byte": 0, "bit": None, "dop": "u8"},
+                  "cases": [{"name": "n1", "lo": 1, "hi": 1, "struct": "st_c2"},
+                            {"name": "n2", "lo": 2, "hi": 3, "struct": None}],
+                  "default": {"name": "ndflt", "struct": None}})
+    rq("p_mux_follow", [sid(), p_value("pre", "u8"), p_value("m", "mux_ns", byte=2),
+                        p_value("after", "u16", byte=5)], "mux-then-positioned")
+    dobjs.append(_struct("st_muxwrap", [p_value("h", "u8"), p_value("m", "mux_ns", byte=1),
+                                        p_value("t", "u8", byte=4)]))
+    rq("p_mux_follow_nested", [sid(), p_value("pre", "u16"), p_value("w", "st_muxwrap"),
+                               p_value("last", "u8")], "mux-then-positioned-nested")
     # 7 table
     dobjs.append({"t": "TABLE", "name": "tab", "key_dop": "u8", "semantic": "X",
                   "rows": [{"name": "r_struct", "key": 1, "struct": "st_c2"},
@@ -342,7 +375,14 @@ def compose_layer(idx: int, r: random.Random, n_msgs: int, depth: int) -> J:
             last = i == n - 1
             params.append(rand_param(f"q{i}", d, allow_open and last, top=False))
         bs = None
-        if r.random() < 0.2 and all(_fixed(p, by()) for p in params):
+        if n > 1 and r.random() < 0.2 and all(_fixed(p, by()) for p in params):
+            # explicit positions in listing order, then the listing is shuffled
+            cur = 0
+            for p in params:
+                p["byte"] = cur
+                cur += _psize(p, by()) + r.choice([0, 0, 1])
+            r.shuffle(params)
+        if r.random() < 0.25 and all(_fixed(p, by()) for p in params):
             bs = _size(params, by()) + r.randrange(0, 3)
         dobjs.append(_struct(name, params, bs))
         return name
@@ -404,8 +444,30 @@ def compose_layer(idx: int, r: random.Random, n_msgs: int, depth: int) -> J:
     for m in range(n_msgs):
         params: List[J] = [u8const("sid", 0x10 + (m % 0x60))]
         n = r.randrange(1, 6)
-        style = r.choice(["implicit", "implicit", "explicit", "bits"])
-        if style == "bits":
+        style = r.choice(["implicit", "implicit", "explicit", "bits"] + (["muxpos"] if m % 8 == 7 else []))
+        if style == "muxpos":
+            # fixed head, multiplexer at an explicit offset, follower at an explicit position
+            head = r.choice(FIXED_SIMPLE)
+            params.append(p_value("head", head))
+            at = 1 + _psize(params[-1], by()) + r.randrange(0, 2)
+            nm = fresh("mp")
+            cases, k, widest = [], 1, 0
+            for c in range(r.randrange(1, 4)):
+                st = None
+                if r.random() < 0.6:
+                    st = fresh("ms")
+                    sp = [p_value(f"q{j}", r.choice(FIXED_SIMPLE)) for j in range(r.randrange(1, 3))]
+                    dobjs.append(_struct(st, sp))
+                    widest = max(widest, _size(sp, by()))
+                cases.append({"name": f"c{c}", "lo": k, "hi": k, "struct": st})
+                k += 1
+            dflt = {"name": "dflt", "struct": None} if r.random() < 0.5 else None
+            dobjs.append({"t": "MUX", "name": nm, "byte_pos": 1,
+                          "key": {"byte": 0, "bit": None, "dop": "u8"}, "cases": cases,
+                          "default": dflt})
+            params.append(p_value("m", nm, byte=at))
+            params.append(p_value("after", r.choice(FIXED_SIMPLE), byte=at + 1 + widest + r.randrange(0, 2)))
+        elif style == "bits":
             # bit packed fixed-size neighbours at explicit positions + a tail
             pos = 1
             bitcursor = 0
